@@ -435,36 +435,9 @@ def node_values_rule(ctx):
         r.fail(f.qualname, "average", f.file, f.lineno, "Mesh.Get_Node_Values", "the nodal average does not divide by the row sums of the matrix it multiplies with")
 
 
-def energy_rule(ctx):
-    repo = ctx.repo
-    r = ctx.rule("R16.6", "deformation energy uses the same quadrature default, law accessor and thickness multiplicity as the stiffness it must equal 1/2 u'Ku with", min_instances=1)
-    E = repo.cls(f"{SIM}._elastic.Elastic")
-    fpsi = E.methods["_Calc_Psi_Elas"]
-    fK = E.methods["Construct_local_matrix_system"]
-    r.instance(fn=fpsi.qualname)
-    # default matrixType of _Calc_Psi_Elas
-    a = fpsi.node.args
-    defaults = dict(zip([x.arg for x in a.args][-len(a.defaults):], a.defaults))
-    mt = dotted(defaults.get("matrixType")) if "matrixType" in defaults else None
-    # matrix type used by the stiffness: default of LinearizedElasticity unless passed
-    fl = repo.func("EasyFEA.FEM.Operators.Bilinear.LinearizedElasticity")
-    la = fl.node.args
-    ld = dict(zip([x.arg for x in la.args][-len(la.defaults):], la.defaults))
-    mtK = dotted(ld.get("matrixType"))
-    callK = [n for n in ast.walk(fK.node) if isinstance(n, ast.Call) and (dotted(n.func) or "").endswith("LinearizedElasticity")]
-    passed = None
-    if callK:
-        c = callK[0]
-        passed = next((dotted(k.value) for k in c.keywords if k.arg == "matrixType"), dotted(c.args[2]) if len(c.args) > 2 else None)
-    effK = passed or mtK
-    thickK = norm_text(fK.node).count("thickness")
-    thickP = norm_text(fpsi.node).count("thickness")
-    usesC_K = "material.C" in norm_text(fK.node)
-    usesC_P = "material.C" in norm_text(fpsi.node) or "_Calc_Sigma_e_pg" in norm_text(fpsi.node)
-    if mt == effK and usesC_K and usesC_P and (thickK > 0) == (thickP > 0):
-        r.ok(f"_Calc_Psi_Elas default {mt} == stiffness quadrature {effK}; both read material.C; thickness applied in both")
-    else:
-        r.fail(fpsi.qualname, "energy", fpsi.file, fpsi.lineno, "Elastic._Calc_Psi_Elas", f"energy wiring differs from the stiffness: quadrature {mt} vs {effK}, law accessor {usesC_P}/{usesC_K}, thickness occurrences {thickP}/{thickK}")
+# (the former R16.6 compared the TEXT of _Calc_Psi_Elas and Construct_local_matrix_system - default quadrature names,
+# occurrences of `thickness`, the substring `material.C` - and would fire on a renamed local; it is replaced by
+# energy_identity_rule, which interprets both functions and decides W == 1/2 u.K u as a polynomial identity.)
 
 
 def run(ctx):
@@ -507,7 +480,7 @@ def run(ctx):
     node_values_rule(ctx)
     node_to_element_rule(ctx)
     ctx.attempt(storage_location_rule, ctx)
-    energy_rule(ctx)
+    ctx.attempt(energy_identity_rule, ctx)
 
 
 def node_to_element_rule(ctx):
@@ -830,3 +803,60 @@ def hooke_rule(ctx, rid="R16.19"):
                 r.fail(fS.qualname, f"hooke:{form}:{ne}x{npg}", fS.file, fS.lineno, "_Elastic.Calc_Sigma_e_pg", f"{label}: {bad}: the stress (and every component / von Mises / energy result read from it) is computed with the stiffness of another element or point")
             else:
                 r.ok(f"{label}: sigma = C eps and psi = 1/2 sigma . eps at every (e, p)")
+
+
+def energy_identity_rule(ctx, rid="R16.6"):
+    """'the reported deformation energy equals one half of u'Ku': both sides are INTERPRETED on the same opaque element
+    (symbolic shape-function gradients and weighted Jacobian, different symbols for each integration scheme, symbolic
+    symmetric stiffness C, thickness t, nodal displacements u): `Elastic.Construct_local_matrix_system` gives K_e,
+    `Elastic._Calc_Psi_Elas` the energy; the polynomial identity  W == 1/2 u . K_e u  is decided by normal form.  (A
+    different default quadrature, a missing thickness, another law accessor or a factor all break the identity.)"""
+    from ..elems import ElemLib
+    from ..femchain import OpaqueGroup, fe_hook_full
+    from ..xeval import EnumVal, Sink
+
+    repo = ctx.repo
+    r = ctx.rule(rid, "deformation energy interpreted: Elastic._Calc_Psi_Elas() == 1/2 u . K_e u with K_e from Elastic.Construct_local_matrix_system, as a polynomial identity in the geometric factors of each integration scheme, C, the thickness and u (2-D and 3-D)", min_instances=2)
+    E = repo.cls(f"{SIM}._elastic.Elastic")
+    law = repo.cls("EasyFEA.Models.Elastic._laws._Elastic")
+    fpsi = E.methods["_Calc_Psi_Elas"]
+    fK = E.methods["Construct_local_matrix_system"]
+    lib = ElemLib(repo)
+    for name in ("TRI3", "TETRA4"):
+        r.instance(fn=fpsi.qualname)
+        g = OpaqueGroup(lib, name, nPe=2)
+        dim, nPe = g.dim, g.nPe
+        ns = 3 if dim == 2 else 6
+        a = g.obj.attrs
+        key = lambda mt: mt.name if isinstance(mt, EnumVal) else ("rigi" if mt is None else str(mt))
+        # one symbol set per integration scheme: a mismatch of schemes between the two sides cannot cancel
+        a["Get_dN_e_pg"] = lambda mt=None: XFe((1, 1, dim, nPe), [Poly.var(f"d{key(mt)}{k}_{n}") for k in range(dim) for n in range(nPe)])
+        a["Get_weightedJacobian_e_pg"] = lambda mt=None: XFe((1, 1), [Poly.var(f"wJ{key(mt)}")])
+        nd = dim * nPe
+        u = XArray((nd,), [Poly.var(f"u{i}") for i in range(nd)])
+        a["Locates_sol_e"] = lambda sol, dof_n=None, asFeArray=False: XFe((1, 1, nd), list(XArray.from_nested(sol).data)) if asFeArray else XArray((1, nd), list(XArray.from_nested(sol).data))
+        C = XArray((ns, ns), [Poly.var(f"C{min(i, j)}{max(i, j)}") for i in range(ns) for j in range(ns)])
+        t = Poly.var("t")
+        mat = XObj(law, {"C": C, "thickness": t, "isHeterogeneous": False, "dim": dim})
+        mesh = SimpleNamespace(Get_list_groupElem=lambda d=None: [g.obj], groupElem=g.obj, Nn=nPe, dim=dim)
+        sim = XObj(E, {"mesh": mesh, "dim": dim, "material": mat, "displacement": u, "rho": Poly.var("rho"), "_verbosity": False,
+                       E.mangle("__coefK"): Poly.var("cK"), E.mangle("__coefM"): Poly.var("cM")})
+        I = Interp(repo, max_steps=4_000_000, extra_builtins={"Tic": lambda *a_, **k_: Sink()})
+        I.call_hook = fe_hook_full
+        try:
+            out = I.call_function(fK, [Opaque("problemType")], self_obj=sim)
+            K = XArray.from_nested(out[g.obj][0])
+            W = I.call_function(fpsi, [], self_obj=sim)
+        except XRaise as e:
+            r.fail(fpsi.qualname, f"energy:{name}", fpsi.file, fpsi.lineno, "Elastic._Calc_Psi_Elas", f"{name}: raises {e}")
+            continue
+        if K.shape != (1, nd, nd):
+            r.fail(fK.qualname, f"energy:{name}", fK.file, fK.lineno, "Elastic.Construct_local_matrix_system", f"{name}: K_e has shape {K.shape}")
+            continue
+        want = sum((u[i] * K[0, i, j] * u[j] for i in range(nd) for j in range(nd)), Poly()) * Q(1, 2)
+        W = Poly.of(W.data[0] if isinstance(W, XArray) else W)
+        if is_zero(W - want):
+            r.ok(f"{name}: W == 1/2 u.K_e u ({len(want.terms) if hasattr(want, 'terms') else '?'} monomials)")
+        else:
+            vars_w, vars_k = sorted(v for v in W.vars() if not v.startswith(("u", "C"))), sorted(v for v in want.vars() if not v.startswith(("u", "C")))
+            r.fail(fpsi.qualname, "energy", fpsi.file, fpsi.lineno, "Elastic._Calc_Psi_Elas", f"{name} (dim {dim}): the reported deformation energy is not 1/2 u.K u for the stiffness the simulation assembles: the energy is built from {vars_w}, the stiffness from {vars_k} (integration scheme, thickness, law or a factor differ)")
